@@ -111,6 +111,11 @@ func (a *kAggregate) Next(ctx context.Context) ([]model.StepVector, error) {
 
 	result := a.vectorPool.GetVectorBatch()
 	for i, vector := range in {
+		// Same rule as the reference engine: a parameter that is NaN or outside the
+		// int64 range is an error, k < 1 selects nothing.
+		if !(a.params[i] <= math.MaxInt64 && a.params[i] >= math.MinInt64) {
+			return nil, errors.Newf("Scalar value %v overflows int64", a.params[i])
+		}
 		a.aggregate(vector.T, &result, int(a.params[i]), vector.SampleIDs, vector.Samples)
 		a.next.GetPool().PutStepVector(vector)
 	}
